@@ -16,10 +16,11 @@ class GitStore_get_etag:
     """Interface contract, refined by BareGitStore._get_etag / TreeGitStore._get_etag."""
 
     def raises_KeyError(self, name):
-        return name not in self.ghost_M
+        # (the metadata entry .xandikos is not a member; its blob id is ghost_cfg)
+        return (self.ghost_cfg is None) if name == ".xandikos" else (name not in self.ghost_M)
 
     def ensures(self, name, result):
-        return result == self.ghost_M[name]
+        return result == (self.ghost_cfg if name == ".xandikos" else self.ghost_M[name])
 
 
 def uid_conflict(self, uid, name):
